@@ -23,6 +23,8 @@ RULES13 = ['InverseBinaryRule', 'BlockRowBlockDiagonalRule', 'BlockDiagonalBlock
            'LinearPolarizerHWPRule']
 
 PLAN = {
+    'C08': _p(quick=110, thorough=2500,
+              required_classes={'thorough': ['class:AdditionOperator', 'class:BlockColumnOperator', 'class:BlockDiagonalOperator', 'class:BlockRowOperator', 'class:BroadcastDiagonalOperator', 'class:CompositionOperator', 'class:DenseBlockDiagonalOperator', 'class:DiagonalInverseOperator', 'class:DiagonalOperator', 'class:HWPOperator', 'class:HomothetyOperator', 'class:IdentityOperator', 'class:IndexOperator', 'class:InverseOperator', 'class:LinearPolarizerOperator', 'class:MoveAxisOperator', 'class:PackOperator', 'class:QURotationOperator', 'class:QURotationTransposeOperator', 'class:RavelOperator', 'class:ReshapeOperator', 'class:ReshapeTransposeOperator', 'class:SymmetricBandToeplitzOperator', 'class:ToastObservationMatrixOperator', 'class:ToastObservationMatrixTransposeOperator', 'class:TransposeOperator']}),
     'C06': _p(quick=50, thorough=2000),
     'C15': _p(quick=180, thorough=4000),
     'C09': _p(quick=16, thorough=500, qbudget=80, tbudget=2400,
